@@ -896,11 +896,32 @@ func endsInImportant(s string) bool {
 }
 
 // hasBalancedBlocks reports whether every (, [, { and every string in the CSS
-// value s is closed again, in order, and none is closed that was not opened.
+// value s is closed again, in order, and none is closed that was not opened,
+// and whether every unquoted url( token in it is well formed.
 func hasBalancedBlocks(s string) bool {
 	var open []byte
+	ident := -1 // where the identifier that ends just before s[i] begins
 	for i := 0; i < len(s); i++ {
-		switch c := s[i]; c {
+		c := s[i]
+		if c >= 'a' && c <= 'z' || c >= 'A' && c <= 'Z' || c >= '0' && c <= '9' || c == '-' || c == '_' || c >= 0x80 {
+			if ident < 0 {
+				ident = i
+			}
+			continue
+		}
+		if c == '\\' {
+			if ident < 0 {
+				ident = i
+			}
+			i = cssEscapeEnd(s, i) // the escaped character is not a delimiter
+			continue
+		}
+		name := ""
+		if ident >= 0 {
+			name = s[ident:i]
+			ident = -1
+		}
+		switch c {
 		case '/':
 			// a comment hides what it contains, brackets included
 			if i+1 < len(s) && s[i+1] == '*' {
@@ -910,8 +931,6 @@ func hasBalancedBlocks(s string) bool {
 				}
 				i += 2 + end + 1
 			}
-		case '\\':
-			i++ // the escaped character is not a delimiter
 		case '"', '\'':
 			j := i + 1
 			for j < len(s) && s[j] != c {
@@ -925,6 +944,27 @@ func hasBalancedBlocks(s string) bool {
 			}
 			i = j
 		case '(':
+			if asciiLower(removeUnicode(name)) == "url" {
+				// url( not followed by a quote begins a url token, which
+				// for a browser ends at the first ")" whatever quotes or
+				// comment marks it contains: "url(x\");top:0;x:\")" is
+				// the (bad) url "url(x\")" followed by a declaration
+				j := i + 1
+				for j < len(s) && isCSSSpace(s[j]) {
+					j++
+				}
+				if j >= len(s) {
+					return false
+				}
+				if s[j] != '"' && s[j] != '\'' {
+					end, ok := cssURLTokenEnd(s, j)
+					if !ok {
+						return false
+					}
+					i = end
+					continue
+				}
+			}
 			open = append(open, ')')
 		case '[':
 			open = append(open, ']')
@@ -938,6 +978,56 @@ func hasBalancedBlocks(s string) bool {
 		}
 	}
 	return len(open) == 0
+}
+
+func isCSSSpace(c byte) bool {
+	return c == ' ' || c == '\t' || c == '\n' || c == '\r' || c == '\f'
+}
+
+// cssEscapeEnd returns the index of the last byte of the escape that begins
+// with the backslash at s[i]: up to six hex digits and one white space after
+// them, or one other character.
+func cssEscapeEnd(s string, i int) int {
+	j := i + 1
+	for j < len(s) && j-i <= 6 && (s[j] >= '0' && s[j] <= '9' || s[j] >= 'a' && s[j] <= 'f' || s[j] >= 'A' && s[j] <= 'F') {
+		j++
+	}
+	if j == i+1 {
+		return j // (may be len(s): a lone trailing backslash)
+	}
+	if j < len(s) && isCSSSpace(s[j]) {
+		return j
+	}
+	return j - 1
+}
+
+// cssURLTokenEnd scans the unquoted url token whose first character is s[i]
+// and returns the index of its closing ")". It reports false for a bad url:
+// one that contains a quote, "(", a non-printable character, white space that
+// is not followed by the ")" or an invalid escape, or that is never closed.
+func cssURLTokenEnd(s string, i int) (int, bool) {
+	for ; i < len(s); i++ {
+		switch c := s[i]; {
+		case c == ')':
+			return i, true
+		case c == '"' || c == '\'' || c == '(' || c == 0x7f || c < 0x20 && !isCSSSpace(c):
+			return 0, false
+		case c == '\\':
+			if i+1 >= len(s) || s[i+1] == '\n' || s[i+1] == '\r' || s[i+1] == '\f' {
+				return 0, false
+			}
+			i = cssEscapeEnd(s, i)
+		case isCSSSpace(c):
+			for i < len(s) && isCSSSpace(s[i]) {
+				i++
+			}
+			if i < len(s) && s[i] == ')' {
+				return i, true
+			}
+			return 0, false
+		}
+	}
+	return 0, false
 }
 
 func (p *Policy) sanitizeStyles(attr html.Attribute, elementName string) html.Attribute {
